@@ -444,13 +444,18 @@ impl HalfConnection {
         loop {
             if self.pending_queue.is_empty() {
                 if self.packet_sender.pending_count() != 0 {
-                    // Packets are only taken from the send queue while there is bandwidth to begin
-                    // sending them. A packet dequeued without bandwidth would wait in the pending
-                    // queue, where a TimeSensitive packet can no longer be dropped once stale and
-                    // would be transmitted (many) steps later.
+                    // Packets are only taken from the send queue while there is bandwidth and
+                    // frame window space to begin sending them. A packet dequeued without either
+                    // would wait in the pending queue, where a TimeSensitive packet can no longer
+                    // be dropped once stale and would be transmitted (many) steps later.
                     match dfe.check_bandwidth() {
                         Err(_) => return Err(()),
                         Ok(_) => (),
+                    }
+
+                    if !dfe.can_begin_packet() {
+                        // Being window-limited does not preclude further sends
+                        break;
                     }
                 }
 
